@@ -7,6 +7,9 @@ import json, glob, os
 rows = []
 for d in sorted(glob.glob("seeded/*/")):
     r = json.load(open(os.path.join(d, "result.json")))
+    if json.load(open(os.path.join(d, "meta.json"))).get("status") == "neutralised":
+        print(r["id"], "neutralised by a later repair (not counted)")
+        continue
     rows.append((r["id"], r["property"], r.get("caught_by"), r.get("with_failing_input")))
 for row in rows:
     print(*row)
